@@ -89,6 +89,10 @@ func (l *ledgerAlloc) AllocateBlockMemory(p peer.ID, amount uint64) <-chan error
 }
 
 func (l *ledgerAlloc) ReleaseBlockMemory(p peer.ID, amount uint64) error {
+	// queues of different peers can finish sends in the same step (one clock jump ends two
+	// stalled sends); whose release reaches the shared allocator first decides which waiting
+	// reservation is answered: one release at a time, in peer order
+	l.w.Park("barrier", "barrier|release|"+l.name(p))
 	l.mu.Lock()
 	defer l.mu.Unlock()
 	if amount > l.outstanding[p] {
@@ -109,6 +113,7 @@ func (l *ledgerAlloc) ReleaseBlockMemory(p peer.ID, amount uint64) error {
 }
 
 func (l *ledgerAlloc) ReleasePeerMemory(p peer.ID) error {
+	l.w.Park("barrier", "barrier|release|"+l.name(p))
 	l.mu.Lock()
 	defer l.mu.Unlock()
 	l.wiped[p] += l.outstanding[p]
